@@ -25,7 +25,7 @@ MANIFEST = {
             "Base58 parsers return None for everything and address production raises ImportError; Bech32 on those networks is covered.",
     "technique": "Lean 4 proof (generic in the codecs, table side conditions by decide +kernel) + differential correspondence model vs implementation",
 }
-RULE = ("ops c08kind/c08addr/c08parse/c08info/c08forinfo/c08keyaddr/c08foraddress on all networks; kinds x networks x hashes, "
+RULE = ("ops c08kind/c08addr/c08parse/c08info/c08forinfo/c08keyaddr/c08foraddress/c08keyseq (key-object histories) on all networks; kinds x networks x hashes, "
         "all ordered network pairs, payload lengths 0..40 per Base58 prefix, every push form of template data, random scripts, "
         "m-of-n with odd count opcodes; distinct = distinct op line; trivial = result None/unknown")
 ASSUMPTIONS = ["Base58Check/Bech32 and the hashes enter the theorems as functions with the C11 round-trip facts as hypotheses",
@@ -130,10 +130,54 @@ def impl(op: str) -> str:
         blob = b"\0\0\0\0" + b"\x00" + b"\0\0\0\0" + b"\0\0\0\0" + b"\x07" * 32 + sec
         node = (net.keys.bip49_deserialize if a[2] == "bip49" else net.keys.bip84_deserialize)(blob)
         return show_addr(_quiet(node.address))
+    if k == "c08keyseq":
+        key = _make_key(NETS[a[1]], a[2], int(a[3]), a[4] == "1", a[5] == "1")
+        outs = []
+        for st in a[8].split(","):
+            r = _quiet(_key_step, key, st)
+            if st == "public_copy":
+                if r[0] == "ok":
+                    key = r[1]
+                outs.append("-" if r[0] == "ok" else "err:" + r[1])
+            elif r[0] == "err":
+                outs.append("err:" + r[1])
+            else:
+                v = r[1]
+                outs.append("None" if v is None else hx(v) if isinstance(v, bytes) else v)
+        return "ok " + ";".join(outs)
     if k == "c08compile":
         r = _quiet(NETS["btc"].script.compile, text_of(a[1]))
         return "err " + r[1] if r[0] == "err" else "ok " + hx(r[1])
     return "bad-op"
+
+
+def _make_key(net, kind, se, private, flag):
+    """the key object a c08keyseq op talks about (the op also carries its two SEC encodings for the model)"""
+    if kind == "key":
+        k = net.keys.private(se, is_compressed=flag)
+        return k if private else net.keys.public(k.sec(is_compressed=flag))
+    node = net.keys.bip32_seed(se.to_bytes(32, "big"))
+    if kind != "bip32":
+        node = getattr(net.keys, kind + "_deserialize")(b"\0\0\0\0" + node.serialize(as_private=True))
+    return node if private else node.public_copy()
+
+
+def _key_step(key, st):
+    if st == "public_copy":
+        return key.public_copy()
+    name, f = st.split(":")
+    kw = {} if f == "d" else {"is_compressed": f == "c"}
+    return getattr(key, name)(**kw)
+
+
+def _hash160_ref(b):
+    """HASH160 computed apart from pycoin's key classes"""
+    sha = hashlib.sha256(b).digest()
+    try:
+        return hashlib.new("ripemd160", sha).digest()
+    except ValueError:
+        from pycoin.encoding.hash import ripemd160
+        return ripemd160(sha).digest()
 
 
 # ------------------------------------------------------------------ oracles: the property on the implementation alone
@@ -212,6 +256,30 @@ def _oracle(op: str, out: str):
         rebuilt = out.split("rebuilt=")[1]
         if rebuilt != hx(script):
             return "script classified %s but rebuilding gives different bytes" % out[3:].split(":")[0]
+    if k == "c08keyseq" and out.startswith("ok "):
+        net, kind, flag = NETS[a[1]], a[2], a[5] == "1"
+        secs = {True: unhx(a[6]), False: unhx(a[7])}
+        for st, got in zip(a[8].split(","), out[3:].split(";")):
+            if st == "public_copy":
+                continue
+            name, f = st.split(":")
+            c = (f == "c") if f != "d" else (True if (name == "address" and kind in ("bip49", "bip84")) else flag)
+            h = _hash160_ref(secs[c])
+            if name == "sec":
+                want = hx(secs[c])
+            elif name == "hash160":
+                want = hx(h)
+            elif name == "fingerprint":
+                want = hx(h[:4])
+            elif kind in ("key", "bip32"):
+                want = net.address.for_script(net.contract.for_p2pkh(h))
+            elif kind == "bip84":
+                want = net.address.for_script(net.contract.for_p2pkh_wit(h))
+            else:
+                want = net.address.for_script(net.contract.for_p2sh(_hash160_ref(net.contract.for_p2pkh_wit(h))))
+            if got != ("None" if want is None else want):
+                return "a key object's %s is not that of the script paying to HASH160 of its %s SEC (after the calls %s)" % (
+                    name, "compressed" if c else "uncompressed", a[8])
     if k == "c08keyaddr" and out.startswith("ok ") and out != "ok None":
         net, sec = NETS[a[1]], unhx(a[3])
         h = hash160(sec)
@@ -410,6 +478,33 @@ def _gen(ctx, emit):
     for m, n in ((1, 1), (2, 3), (0, 0), (1, 0), (3, 2), (15, 16), (16, 16), (17, 17), (1, 20)):
         emit("c08forinfo multisig:%d:%s" % (m, "/".join(hx(b"\x02" + rb(32)) for _ in range(n)) or "~"))
     emit("c08forinfo multisig:1:-/%s" % hx(rb(33)))
+    # 7. key objects over time: every cached attribute and copying method, in random orders
+    step_names = ["hash160", "fingerprint", "address", "sec"]
+    def steps_random(n):
+        return [("public_copy" if rng.random() < 0.25 else "%s:%s" % (rng.choice(step_names), rng.choice("cud"))) for _ in range(n)]
+    fixed_seqs = [["address:d", "public_copy", "address:u", "address:c", "hash160:u"], ["hash160:c", "public_copy", "hash160:u", "sec:u", "address:u"],
+                  ["fingerprint:d", "public_copy", "fingerprint:u"], ["address:u", "public_copy", "address:c", "address:d"],
+                  ["hash160:u", "hash160:c", "public_copy", "public_copy", "hash160:c", "hash160:u", "address:d"],
+                  ["public_copy", "address:u", "address:c"], ["address:c", "address:u", "address:c", "address:u"]]
+    def keyseq(name, kind, se, private, flag, steps):
+        key = _make_key(NETS[name], kind, se, True, flag)
+        emit("c08keyseq %s %s %d %d %d %s %s %s" % (name, kind, se, 1 if private else 0, 1 if flag else 0,
+                                                   hx(key.sec(is_compressed=True)), hx(key.sec(is_compressed=False)), ",".join(steps)))
+    for name in NAMES:
+        if name in GRS:
+            continue
+        se = rng.randrange(1, 2 ** 200)
+        for flag in (True, False):
+            for steps in fixed_seqs[: ctx.n(3, 7)]:
+                keyseq(name, "key", se, True, flag, steps)
+            keyseq(name, "key", se, False, flag, steps_random(5))
+        for kind in ("bip32", "bip49", "bip84"):
+            keyseq(name, kind, se, True, True, rng.choice(fixed_seqs))
+    for _ in range(ctx.n(400, 8000)):
+        name = rng.choice([n for n in NAMES if n not in GRS])
+        kind = rng.choice(["key", "key", "key", "bip32", "bip49", "bip84"])
+        keyseq(name, kind, rng.randrange(1, 2 ** 255), rng.random() < 0.75, True if kind != "key" else rng.random() < 0.5,
+               steps_random(rng.randint(1, 9)))
     # 6. keys: Key / BIP49 / BIP84 address on every network (SEC taken from real keys)
     secs = []
     for se in (1, 2, 3, rng.randrange(1, 2 ** 256 - 2 ** 33)):
